@@ -239,6 +239,7 @@ ASMJIT_FAVOR_SIZE Error FuncArgsContext::init_work_data(const FuncFrame& frame, 
     if (sa_out_reg_id != Reg::kIdBad) {
       var.out.init_reg(ptr_reg_type, sa_out_reg_id, ptr_type_id);
       gp_regs._dst_regs  |= Support::bit_mask<RegMask>(sa_out_reg_id);
+      gp_regs._dst_shuf  |= Support::bit_mask<RegMask>(sa_out_reg_id);
       gp_regs._work_regs |= Support::bit_mask<RegMask>(sa_out_reg_id);
     }
     else {
